@@ -42,6 +42,36 @@ Definition pinv (p : pc) (s : state) : Prop :=
 Definition obs := option vgraph.
 Definition observe (b : bool) (s : state) : obs := if b then Some (vis (SG s)) else None.
 
+(* ---------------------------------------------------------------- the invariant as a test
+   (run by the model driver on states dumped from /repo).  [inv_vis_b]: the clauses about the
+   saved projection; [inv_hid_b]: the clauses about what is not saved (first element of the
+   hidden part of DegreeSequence while the graph is empty, no cached group before the first
+   call). *)
+Definition cache_is_empty (c : cache) : bool :=
+  match CPerm c, COrb c, CGens c with
+  | None, [], [] => true
+  | _, _, _ => false
+  end.
+
+Definition inv_vis_b (s : state) : bool :=
+  let g := SG s in
+  (length (Edg g) =? tri (NV g)) && (length (Deg g) =? NV g) && (NV g <=? SN s) &&
+  (if SFirst s then match SPath s with [] => true | _ => false end
+   else if 2 <=? SN s then NV g =? S (length (SPath s)) else true) &&
+  (if SFirst s || (SN s <=? 1) then NV g <=? 1 else true).
+
+Definition inv_hid_b (s : state) : bool :=
+  (if NV (SG s) =? 0
+   then match SN s, DegTail (SG s) with
+        | 0, [] => true
+        | S _, z :: _ => (z =? 0)%Z
+        | _, _ => false
+        end
+   else true) &&
+  (if SFirst s then cache_is_empty (SCache s) else true).
+
+Definition inv_b (s : state) : bool := inv_vis_b s && inv_hid_b s.
+
 Section SaveModel.
 Variable grow : nat -> nat.
 Variable canon : nat -> Z -> list (list nat) -> bool -> N -> cache.
